@@ -812,10 +812,14 @@ Lemma gc_keeps_unexpired t e : t < n_exp e -> nf_gc t (Some e) = Some e.
 Proof. intros H. unfold nf_gc. destruct (n_exp e <=? t) eqn:Hx; [lia|reflexivity]. Qed.
 
 (* store.Set: the group holds exactly one alert per id, the latest inserted *)
-Lemma store_set_has a l : In a (store_set l a).
+Lemma store_set_has a l :
+  (forall b, In b l -> a_id b = a_id a -> a_upd b <= a_upd a) -> In a (store_set l a).
 Proof.
-  induction l as [|b l IH]; cbn [store_set]; [left; reflexivity|].
-  destruct (a_id b =? a_id a); [left; reflexivity|right; exact IH].
+  induction l as [|b l IH]; cbn [store_set]; intros Hnew; [left; reflexivity|].
+  destruct (a_id b =? a_id a) eqn:Hb.
+  - assert (a_upd b <= a_upd a) by (apply Hnew; [left; reflexivity|lia]).
+    destruct (a_upd a <? a_upd b) eqn:Hu; [lia|left; reflexivity].
+  - right. apply IH. intros c Hc. apply Hnew. right. exact Hc.
 Qed.
 
 Lemma store_set_ids a l : forall x, In x (store_set l a) -> x = a \/ In x l.
@@ -823,7 +827,7 @@ Proof.
   induction l as [|b l IH]; cbn [store_set]; intros x.
   - intros [<-|[]]. left. reflexivity.
   - destruct (a_id b =? a_id a).
-    + intros [<-|Hin]; [left; reflexivity|right; right; exact Hin].
+    + destruct (a_upd a <? a_upd b); intros [<-|Hin]; auto; right; [left; reflexivity|right; exact Hin|right; exact Hin].
     + intros [<-|Hin]; [right; left; reflexivity|].
       destruct (IH x Hin) as [->|H]; [left; reflexivity|right; right; exact H].
 Qed.
